@@ -55,9 +55,14 @@ def run(item):
         funs.append(f1 - f1)
     fid_of = {id(f1): 1, id(f2): 2, id(f6): 6}
 
+    nq = [len(item["h"])]
+
     def query(q):
-        if q == 1: return 1 * x1
-        if q == 2: return 1 * x2
+        # the two leaf points are queried alternately as the leaf object itself and as a derived point with the same
+        # decomposition (1 * x): "two points with the same decomposition are the same point", in both orders
+        nq[0] += 1
+        if q == 1: return x1 if nq[0] % 2 == 1 else 1 * x1
+        if q == 2: return x2 if nq[0] % 2 == 1 else 1 * x2
         if q == 3: return x1 - x2
         if q == 4: return 0 * x2
         if q == 5: return x1 - x1
